@@ -264,6 +264,9 @@ pub fn run(ctx: &mut Ctx) {
         check,
         |c| json!(to_espada(&c.range.map()).to_string()),
     );
+    if ctx.tier == Tier::Thorough && !ctx.failed() {
+        crate::fuzzrun::campaign(ctx, "fz_range", 3000, 16, 400);
+    }
 }
 
 pub fn replay(_stream: &str, path: &str, case: &Value) -> i32 {
